@@ -373,6 +373,7 @@ func runC03(c *Ctx) {
 			}
 			// every return of mi is under the true edge; the false edge returns reflect.Zero(elem type of the same map)
 			okT, okF := true, false
+			zeroWhy := ""
 			eachInstr(f, func(i2 ssa.Instruction) {
 				r, isR := i2.(*ssa.Return)
 				if !isR {
@@ -383,11 +384,19 @@ func runC03(c *Ctx) {
 						okT = false
 					}
 					if zc, isCall := pv.V.(*ssa.Call); isCall && fnIs(zc.Call.StaticCallee(), "reflect", "", "Zero") && x.edgeDominated(test.Block(), 1)[r.Block()] {
-						okF = true
+						// the zero value must be of the map's element type: Type() of the root value followed by
+						// one Elem() more than the Elem() calls between the root value and the MapIndex receiver
+						vElems, vRoot := x.elemChain(cc.Args[0], "value")
+						tElems, tRoot := x.elemChain(zc.Call.Args[0], "type")
+						if vRoot != nil && vRoot == tRoot && tElems == vElems+1 {
+							okF = true
+						} else {
+							zeroWhy = fmt.Sprintf("reflect.Zero is given the type after %d Elem() call(s) but the map was reached after %d Elem() call(s) on the value: not the map's element type", tElems, vElems)
+						}
 					}
 				}
 			})
-			c.Check("I5-missing-key-zero", key, okT && okF, in.Pos(), "the element is returned only when IsValid(); otherwise reflect.Zero of the element type")
+			c.Check("I5-missing-key-zero", key, okT && okF, in.Pos(), "the element is returned only when IsValid(); otherwise reflect.Zero of the map's element type %s", zeroWhy)
 		})
 		c.Min("I5-missing-key-zero", 6)
 	}
@@ -633,4 +642,40 @@ func kindNames(kinds map[int64]string, ks []int64) []string {
 	}
 	sort.Strings(out)
 	return out
+}
+
+// elemChain counts the Elem() calls between a root reflect.Value and v. kind "value": v is a
+// reflect.Value reached by .Elem() calls; kind "type": v is root.Type() followed by .Elem() calls.
+func (x *FnIndex) elemChain(v ssa.Value, kind string) (int, ssa.Value) {
+	n := 0
+	for i := 0; i < 6; i++ {
+		o := x.Origin(v)
+		call, ok := o.(*ssa.Call)
+		if !ok {
+			if kind == "value" {
+				return n, o
+			}
+			return n, nil
+		}
+		name := ""
+		var recv ssa.Value
+		if call.Call.IsInvoke() {
+			name, recv = call.Call.Method.Name(), call.Call.Value
+		} else if cal := call.Call.StaticCallee(); cal != nil && len(call.Call.Args) >= 1 {
+			name, recv = cal.Name(), call.Call.Args[0]
+		}
+		switch {
+		case name == "Elem":
+			n++
+			v = recv
+		case name == "Type" && kind == "type":
+			return n, x.Origin(recv)
+		default:
+			if kind == "value" {
+				return n, o
+			}
+			return n, nil
+		}
+	}
+	return n, nil
 }
